@@ -7,7 +7,7 @@ EXPLANATION = (
     "D2 name tables (from_str after lower-casing, Display) mutually inverse and equal to the spec; "
     "D3 error propagation in the three internals (io::copy / each split line through `?`, nothing hashed after an error); "
     "D4 hex encoding template {:02x} folded over the whole finalize() output; "
-    "D5 patch filter shape: split on \\n, windows(len(marker)).any(== \"$NetBSD\"), skipped line -> no update, kept line -> update(line), update(\"\\n\")")
+    "D5 patch filter shape: split on \\n, windows(len(marker)).any(== \"$NetBSD\"), skipped line -> no update, kept line -> update(line), update(\"\\n\"); the line source may be BufRead::split(b'\n') or one reused buffer with clear(); read_until(b'\n'); stop at 0; pop the delimiter if present (each step required)")
 NOT_DECIDED = [
     "that the RustCrypto cores implement the standard algorithms (trusted base)",
     "io::copy / BufRead::split retry-on-Interrupted behaviour (std contract)",
